@@ -70,7 +70,7 @@ def _closure_cyclic(n, edge):
 
 class SortUnit(Scenario):
     validate = False
-    max_paths = 200000
+    max_paths = 3000
     max_decisions = 2000
 
     def __init__(self, n, multi):
@@ -187,7 +187,7 @@ class GraphAPI(Scenario):
         m.add_parameter("k", ctx.real("p_k"))
         m.add_variable("x", ctx.real("i_x"))
         for i in self.order:
-            args = ["k"] + [out_name[j] for (a, j) in sorted(self.edges) if a == i]
+            args = (["k", "x"] if kinds[i] in ("ia_param", "ia_var") else ["k"]) + [out_name[j] for (a, j) in sorted(self.edges) if a == i]
             if self.missing_at == i:
                 args.append("nope")
             kind = kinds[i]
@@ -264,7 +264,20 @@ class GraphAPI(Scenario):
             out = m(T, [state[v] for v in m.get_variable_names()])
         for i, v in enumerate(m.get_variable_names()):
             ctx.eq(f"__call__[{v}]", out[i], dx[v])
-
+        # the same graph after its base values were re-declared on the resolved model (one edit at a time)
+        for tag, edit in (("variable", lambda: m.update_variable("x", ctx.real("i2_x"))), ("parameter", lambda: m.update_parameter("k", ctx.real("p2_k")))):
+            with ctx.impl(f"re-declare the base {tag}"):
+                edit()
+            decl = E.Decl(m)
+            env = E.state_env(decl, state, T)
+            with ctx.impl(f"get_args after re-declaring the {tag}"):
+                a = m.get_args(dict(state), T)
+                ic = m.get_initial_conditions()
+            for n in a.index:
+                ctx.eq(f"after re-declaring the {tag}: get_args[{n}]", a[n], env[n])
+            ic0 = E.initial_conditions(decl)
+            for v in ic0:
+                ctx.eq(f"after re-declaring the {tag}: get_initial_conditions[{v}]", ic[v], ic0[v])
 
 def scenarios(tier, seed):
     scs = []
